@@ -26,15 +26,31 @@ def canon_exc(err):
     return (type(err).__module__ + "." + type(err).__name__, str(err))
 
 
+def exc_origin(err) -> str:
+    """'<package-relative file>:<function>' of the innermost frame that raised err."""
+    tb = err.__traceback__
+    if tb is None:
+        return "?"
+    while tb.tb_next is not None:
+        tb = tb.tb_next
+    fn = tb.tb_frame.f_code.co_filename
+    for marker in ("/site-packages/", "/repo/src/", "/lib/python3"):
+        if marker in fn:
+            fn = fn.split(marker, 1)[1]
+            break
+    return f"{fn}:{tb.tb_frame.f_code.co_name}"
+
+
 class Outcome:
     """What one execution of the reader did."""
 
-    __slots__ = ("items", "events", "exc", "hang", "transport", "handler_bad", "objs")
+    __slots__ = ("items", "events", "exc", "exc_where", "hang", "transport", "handler_bad", "objs")
 
     def __init__(self):
         self.items = []  # [(raw bytes, canon_parsed)]
         self.events = []  # unified log: ("D", raw) | ("E", exc type, message)
         self.exc = None  # canon_exc of an exception that escaped iteration
+        self.exc_where = None  # exc_origin of that exception
         self.hang = None  # message of SimBudgetExceeded
         self.transport = None
         self.handler_bad = []  # handler invoked with something that is not an exception
@@ -109,6 +125,7 @@ def run_reader(wire: bytes, cfg: dict, tr: dict, keep_objs=False, use_read=False
         out.hang = str(err)
     except Exception as err:  # pylint: disable=broad-except
         out.exc = canon_exc(err)
+        out.exc_where = exc_origin(err)
         out.events.append(("X",) + out.exc)
     return out
 
